@@ -136,7 +136,7 @@ func traverseChecks(c *chk, b *built) {
 			reach := s.reachFrom(from, s.all(), allowed)
 			dist := s.dist(from, allowed)
 			for _, us := range untils {
-				if us.ext && !f.ext {
+				if us.ext && !(f.ext && (ordD || ordU)) {
 					continue
 				}
 				what := fmt.Sprintf("filter=%s from=%d until=%s", f.name, from, us.name)
